@@ -306,10 +306,12 @@ Example lx2_nm : no_multi lx_ms2.
 Proof. cbn. tauto. Qed.
 Example lx2_reports : forall mall : bool,
   let r := snd (sat_dissat lx_ke lx_senv mall true lx_ms2) in
-  exists l bs, s_stack r = WStack l /\ fill_all lx_fill l = Some bs /\ s_abs r = None /\ s_rel r = Some 7%N /\
-    accepts (lx_env 0 7 2) (enc lx_ke lx_ms2) (rev bs) = true /\
-    exec (lx_env 0 6 2) (enc lx_ke lx_ms2) (mkSt (rev bs) []) = Fail /\
-    exec (lx_env 0 7 1) (enc lx_ke lx_ms2) (mkSt (rev bs) []) = Fail /\
-    exec (lx_env 0 (7 + 4194304) 2) (enc lx_ke lx_ms2) (mkSt (rev bs) []) = Fail /\
-    exec (lx_env 0 (7 + 2147483648) 2) (enc lx_ke lx_ms2) (mkSt (rev bs) []) = Fail.
-Proof. intros [|]; vm_compute; eexists; eexists; repeat split; reflexivity. Qed.
+  let bs := [[]; [7; 2; 1]; []]%N in
+  s_stack r = WStack [PhPushZero; PhSig 1%N; PhPushZero] /\
+  fill_all lx_fill [PhPushZero; PhSig 1%N; PhPushZero] = Some bs /\ s_abs r = None /\ s_rel r = Some 7%N /\
+  accepts (lx_env 0 7 2) (enc lx_ke lx_ms2) (rev bs) = true /\
+  exec (lx_env 0 6 2) (enc lx_ke lx_ms2) (mkSt (rev bs) []) = Fail /\
+  exec (lx_env 0 7 1) (enc lx_ke lx_ms2) (mkSt (rev bs) []) = Fail /\
+  exec (lx_env 0 (7 + 4194304) 2) (enc lx_ke lx_ms2) (mkSt (rev bs) []) = Fail /\
+  exec (lx_env 0 (7 + 2147483648) 2) (enc lx_ke lx_ms2) (mkSt (rev bs) []) = Fail.
+Proof. intros [|]; vm_compute; repeat split; reflexivity. Qed.
